@@ -110,6 +110,8 @@ pub struct Client {
     pub first_offer_state: HashMap<usize, Option<StateKey>>,
     /// log index -> position of the first offer in this client's delivery sequence
     pub first_offer_seq: HashMap<usize, usize>,
+    /// log index -> nostr group id this client routed by when the event was first offered
+    pub first_offer_nid: HashMap<usize, Option<[u8; 32]>>,
     pub offers: usize,
     /// log indices that took effect here (C07 candidates)
     pub effective: BTreeSet<usize>,
@@ -208,6 +210,7 @@ impl Client {
             first_result: HashMap::new(),
             first_offer_state: HashMap::new(),
             first_offer_seq: HashMap::new(),
+            first_offer_nid: HashMap::new(),
             offers: 0,
             effective: BTreeSet::new(),
             transitions: vec![],
